@@ -342,3 +342,43 @@ func WithCancel(parent context.Context) (context.Context, context.CancelFunc) {
 		mark(id)
 	}
 }
+
+// AfterFunc replaces context.AfterFunc: f runs in a thread of its own once ctx's modelled Done
+// channel is closed (see WithCancel), unless stop was called first. While it waits the thread is
+// not a goroutine of the program (the real AfterFunc starts one only when the context is done), so
+// it counts neither as a leak nor as blocked.
+func AfterFunc(ctx context.Context, f func()) (stop func() bool) {
+	if cur == nil || cur.aborting {
+		return context.AfterFunc(ctx, f)
+	}
+	e := cur
+	done := ctx.Done()
+	if done == nil {
+		return func() bool { return true }
+	}
+	id, _ := chid(done)
+	stopped, started := false, false
+	t := e.newThread("ctx.afterfunc", func() {
+		WaitUntil("ctx.afterfunc", id, func() bool { return stopped || e.cs(id).closed })
+		if stopped {
+			return
+		}
+		started = true
+		me := e.running
+		me.Daemon = false
+		me.vc.join(e.cs(id).closeVC)
+		f()
+	})
+	t.Daemon = true
+	return func() bool {
+		if cur != e || e.aborting {
+			return false
+		}
+		yield(&Op{Kind: "ctx.afterfunc.stop", Obj: id})
+		if started || stopped {
+			return false
+		}
+		stopped = true
+		return true
+	}
+}
